@@ -11,7 +11,7 @@ RULE = ('genomes of 1..4 chromosomes (size 1..7); leaf arrays from bedGraphs (ev
         'of <= 3 records on one chromosome of size <= 5 (quick: 4)), from interval sets (get_mask, get_pileup; '
         'unsorted, overlapping, touching across a chromosome boundary) and from GenomicRunLengthArray.from_intervals '
         '(scalar / per-interval values, default value); well-typed expression trees over {+,-,*,<,>,==,&,|,~} with '
-        'array and Python-scalar operands up to depth 3; sum and histogram of the result.  non-trivial = some leaf has '
+        'array and Python-scalar operands up to depth 3; np.sum / .sum() (positional, keyword and method forms of axis=None) and np.histogram of the result in every calling convention (bins int or explicit edges x positional / keyword, range positional / keyword / absent, default call), counts and edges compared.  non-trivial = some leaf has '
         'a record, and the case has two or more chromosomes or an operator')
 EXHAUSTIVE = {'quick': False, 'thorough': False}
 TIE = ('translator+correspondence: Gen/C09.v regenerated from /repo (from_bedgraph, from_intervals, to_array, slice bounds, offsets) bridged to the named formulas of Model/C09.v (C09_source_tie); '
@@ -284,12 +284,69 @@ def _rand_expr(rng, leaves, depth):
     return ['sa', op, ks, s, sub]
 
 
+HIST_STYLES = ['kw_edges', 'pos_edges', 'pos_int', 'pos_int_range', 'kw_int_range', 'mixed', 'default', 'kw_int', 'pos_edges_none']
+SUM_STYLES = ['np', 'np_pos_none', 'np_kw_none', 'method', 'method_kw']
+HIST_RANGES = [(0, 9), (-2, 6), (0, 1), (0.5, 4.5), (0, 3)]
+HIST_NBINS = [1, 2, 3, 4, 7, 10]
+_MK = [0]
+
+
 def mk(sizes, leaves, expr, edges=None, names=0):
-    return dict(sizes=list(sizes), leaves=leaves, expr=expr, edges=[V(x) for x in (edges or EDGES[0])], names=names)
+    """the calling conventions of np.histogram / np.sum are cycled deterministically over the cases"""
+    j = _MK[0]
+    _MK[0] += 1
+    rg = HIST_RANGES[(j // len(HIST_STYLES)) % len(HIST_RANGES)]
+    return dict(sizes=list(sizes), leaves=leaves, expr=expr, edges=[V(x) for x in (edges or EDGES[0])], names=names,
+                hist=dict(style=HIST_STYLES[j % len(HIST_STYLES)], bins=HIST_NBINS[(j // 3) % len(HIST_NBINS)], range=[V(rg[0]), V(rg[1])]),
+                sum_style=SUM_STYLES[j % len(SUM_STYLES)])
+
+
+def hist_call(np, x, case):
+    """np.histogram(x, ...) in the calling convention of the case (same call for the genomic and the dense array)."""
+    h = case.get('hist') or dict(style='kw_edges')
+    edges = [unV(v, 'f') for v in case['edges']]
+    n = h.get('bins', 4)
+    rg = tuple(unV(v, 'f') for v in h['range']) if h.get('range') else (0, 9)
+    st = h['style']
+    if st == 'kw_edges':
+        return np.histogram(x, bins=edges)
+    if st == 'pos_edges':
+        return np.histogram(x, edges)
+    if st == 'pos_edges_none':
+        return np.histogram(x, edges, None)
+    if st == 'pos_int':
+        return np.histogram(x, n)
+    if st == 'kw_int':
+        return np.histogram(x, bins=n)
+    if st == 'pos_int_range':
+        return np.histogram(x, n, rg)
+    if st == 'kw_int_range':
+        return np.histogram(x, bins=n, range=rg)
+    if st == 'mixed':
+        return np.histogram(x, n, range=rg)
+    if st == 'default':
+        return np.histogram(x)
+    raise ValueError(st)
+
+
+def sum_call(np, x, case):
+    st = case.get('sum_style', 'np')
+    if st == 'np':
+        return np.sum(x)
+    if st == 'np_pos_none':
+        return np.sum(x, None)
+    if st == 'np_kw_none':
+        return np.sum(x, axis=None)
+    if st == 'method':
+        return x.sum()
+    if st == 'method_kw':
+        return x.sum(axis=None)
+    raise ValueError(st)
 
 
 def generate(tier, seed):
     rng = random.Random(seed * 7919 + 9)
+    _MK[0] = seed
     cases = []
     quick = tier == 'quick'
     # A. every bedGraph shape on one chromosome (exhaustive record sets), kinds cycled, identity / scalar expression
@@ -450,21 +507,23 @@ def observe(case):
     out = dict(leaves=lobs)
     # the same tree on dense NumPy arrays (ground truth)
     dense = [_dense_leaf(np, case, l) for l in case['leaves']]
-    edges = [unV(v, 'f') for v in case['edges']]
     d = np.asarray(apply_expr(case['expr'], dense))
-    out['np'] = dict(kind=_kind_of(d.dtype), dense=_arr_vals(d), sum=V(np.sum(d).item()),
-                     hist=[int(c) for c in np.histogram(d, bins=edges)[0]])
+    hd = hist_call(np, d, case)
+    out['np'] = dict(kind=_kind_of(d.dtype), dense=_arr_vals(d), sum=V(sum_call(np, d, case).item()),
+                     hist=[int(c) for c in hd[0]], edges=[V(float(x)) for x in hd[1]])
     if any(a is None for a in arrays):
         out['res'] = dict(ok=False, err='leaf failed')
         return out
     try:
         r = apply_expr(case['expr'], arrays)
         o = _observe_array(np, r, names)
-        o['sum'] = V(np.sum(r).item())
-        h = np.histogram(r, bins=edges)[0]
+        o['sum'] = V(sum_call(np, r, case).item())
+        hr = hist_call(np, r, case)
+        h = hr[0]
         o['hist'] = [int(c) for c in np.asarray(h).tolist()]
         if any(float(c) != int(c) for c in np.asarray(h).tolist()):
             o['hist'] = [-1]
+        o['edges'] = [V(float(x)) for x in np.asarray(hr[1]).tolist()]
         s = str(r)
         o['str_lines'] = s.count('\n') + 1
     except Exception as e:
@@ -521,10 +580,11 @@ def to_coq(case, o):
     res = o['res']
     npd = o['np']
     return ('{| k_sizes := %s; k_leaves := %s; k_lobs := %s; k_expr := %s; k_res := %s; k_np_kind := %s; k_np := %s; '
-            'k_sum := %s; k_np_sum := %s; k_edges := %s; k_hist := %s; k_np_hist := %s |}' % (
+            'k_sum := %s; k_np_sum := %s; k_edges := %s; k_obs_edges := %s; k_hist := %s; k_np_hist := %s |}' % (
                 zl(case['sizes']), leaves, clist([cobs(x) for x in o['leaves']], 'obs'), cexpr(case['expr']), cobs(res),
                 ck(npd['kind']), cvl(npd['dense']),
-                cv(res['sum']) if res.get('ok') else '(0, 0)', cv(npd['sum']), cvl(case['edges']),
+                cv(res['sum']) if res.get('ok') else '(0, 0)', cv(npd['sum']), cvl(npd['edges']),
+                cvl(res['edges']) if res.get('ok') else '(@nil val)',
                 zl(res['hist']) if res.get('ok') else '(@nil Z)', zl(npd['hist'])))
 
 
@@ -553,7 +613,7 @@ def shape_class(case, l):
 
 
 def distribution(cases, obs):
-    d = dict(chromosomes={}, leaf_tags={}, bedgraph_kinds={}, bedgraph_shapes={}, depth={}, operators={}, errors=0)
+    d = dict(chromosomes={}, leaf_tags={}, bedgraph_kinds={}, bedgraph_shapes={}, depth={}, operators={}, histogram_call={}, sum_call={}, errors=0)
     for c, o in zip(cases, obs):
         k = str(len(c['sizes']))
         d['chromosomes'][k] = d['chromosomes'].get(k, 0) + 1
@@ -564,6 +624,10 @@ def distribution(cases, obs):
                 d['bedgraph_kinds'][l['kind']] = d['bedgraph_kinds'].get(l['kind'], 0) + 1
                 s = shape_class(c, l)
                 d['bedgraph_shapes'][s] = d['bedgraph_shapes'].get(s, 0) + 1
+        hs = (c.get('hist') or {}).get('style', 'kw_edges')
+        d['histogram_call'][hs] = d['histogram_call'].get(hs, 0) + 1
+        ss = c.get('sum_style', 'np')
+        d['sum_call'][ss] = d['sum_call'].get(ss, 0) + 1
         dp = str(expr_depth(c['expr']))
         d['depth'][dp] = d['depth'].get(dp, 0) + 1
         for op in expr_ops(c['expr'], set()):
@@ -628,6 +692,6 @@ def signature(case, o):
         return 'result-dense'
     if r.get('sum') != o['np']['sum']:
         return 'sum'
-    if r.get('hist') != o['np']['hist']:
-        return 'histogram'
+    if r.get('hist') != o['np']['hist'] or r.get('edges') != o['np']['edges']:
+        return 'histogram:' + (case.get('hist') or {}).get('style', 'kw_edges')
     return 'get_data'
